@@ -333,3 +333,48 @@ def levels_rule(ck, P, rule, names):
             from_box = bool(bb) and e is not None and e.get("k") == "field" and e.get("name") == "level" and ir.local_hid(e["e"]) == bb[0]["hid"]
             okl = okl and (from_idx or from_box)
         ck.check(okl, rule, key + "|own-level", "level numbers used inside the loop are the loop's own level (%d uses)" % len(uses), "a level number inside the loop is not the visited level", ir.loc(lp))
+
+
+ORDER_KEEPING = {"into_iter", "iter", "map", "collect", "buffered", "try_collect", "then", "cloned", "copied", "enumerate", "boxed", "await", "unwrap", "expect", "to_vec", "clone", "into", "ok_or", "ok_or_else", "context", "with_context"}
+ORDER_KEEPING_FNS = ("future::join_all::join_all", "future::try_join_all::try_join_all", "stream::iter::iter", "Result::Ok::{Ctor#0}", "from_iter")
+
+
+def sources_in_list_order(ck, rule, key, b, adt):
+    """a multi-source read operation stores its sub-pipelines in the order the pipeline text lists them: the expression
+    that turns `args.sources` into the stored vector may only use order-preserving combinators (join_all / buffered /
+    sequential loop); completion-ordered ones (buffer_unordered, FuturesUnordered, select_all), sorting or reversing
+    make `first listed source` / `source order` depend on timing."""
+    st = [n for n in ir.walk_nodes(b["body"]) if n.get("k") == "struct" and n.get("q") == adt]
+    if not st:
+        ck.violation(rule, key + "|sources-order", "operation struct is not built in build()", ir.loc(b))
+        return
+    f = [x for x in st[0]["fields"] if x["name"] == "sources"]
+    lets = lets_of(b)
+    init = lets.get(ir.local_hid(f[0]["e"])) if f else None
+    if init is None:
+        ck.violation(rule, key + "|sources-order", "the stored `sources` value is not a local built in build()", ir.loc(b))
+        return
+    bad = []
+    rooted = False
+
+    def outside_closures(n):
+        yield n
+        if n.get("k") == "closure":
+            return
+        for c in ir.children(n):
+            yield from outside_closures(c)
+    for y in outside_closures(init):
+        if y.get("k") == "mcall":
+            if y["name"] not in ORDER_KEEPING:
+                bad.append(y["name"])
+        elif y.get("k") == "call" and y.get("q") and not (y.get("q") or "").endswith(ORDER_KEEPING_FNS) and "f" not in y:
+            bad.append(y["q"].rsplit("::", 1)[-1])
+        if y.get("k") == "field" and y.get("name") == "sources":
+            rooted = True
+    # later re-ordering of the vector
+    vh = ir.local_hid(f[0]["e"])
+    for y in ir.walk_nodes(b["body"]):
+        if y.get("k") == "mcall" and ir.local_hid(y["recv"]) == vh and y["recv"].get("ta", "").startswith("&mut") and y["name"] not in ("iter_mut", "push"):
+            bad.append(y["name"])
+    ck.check(not bad and rooted, rule, key + "|sources-order", "the stored sources are built from args.sources with order-preserving combinators only",
+             "the stored sources are produced through %s: their order is completion order / re-ordered, not the order of the pipeline text" % (sorted(set(bad)) or "an expression not rooted in args.sources"), ir.loc(init))
